@@ -175,3 +175,42 @@ reg("C05",
          "rebuilt here (no Cython), so only Python-level changes can be exercised by mutants. Tolerance 1e-9 (observed 2e-15).",
     technique="TLA+/TLC theorem on the integer lattice (sub-sampling recursion = centres K levels deeper) + TLC-emitted grids and psi compared with the real pixel coordinates",
     design_ref="DESIGN.md 4.4, 5/C05")
+
+reg("C12",
+    text="The lookup part of spec/ToastLattice.tla: Admissible(p, d) = tiles of depth d whose closed cell holds lattice point p or a point sewn to it by the fold; the descent of "
+         "toast_tile_for_point as a state machine with invariants LookupHolds and NeverStuck and the action property LookupNested; T_LookupCentre. TLC explores the machine from "
+         "every lattice point and emits Admissible for every point at every depth. Test points are generated from the lattice (tile and pixel centres, edge midpoints, corners, "
+         "the equator diamond, the seam, both poles with arbitrary longitudes, the sewn boundary), mapped to the sphere by psi, shifted by multiples of 2 pi and fed to the real "
+         "toast_tile_for_point / toast_pixel_for_point in both coordinate systems: the returned tile must be in TLC's admissible set (closed form for interior points to depth 10), "
+         "tiles for increasing depths nested, 2-pi shifts give the same answer, and the fractional pixel within 2 px of the pixel whose centre is nearest (points >= 1 deg from the poles).",
+    note="Admissible table exhaustive at R=5, depth 4 (thorough R=6, depth 5); deeper points are strictly interior (odd lattice coordinates) so the containing cell is unique. psi "
+         "is validated against the real tile corners by C04. Observed worst pixel error 0.69 px against the 2 px bound. A 20 s per-call backstop turns a non-returning lookup into a "
+         "reported violation.",
+    technique="TLA+/TLC state machine + emitted admissible sets on the integer lattice; lattice-generated points replayed into the real lookups",
+    design_ref="DESIGN.md 4.4, 5/C12")
+
+reg("C17",
+    text="spec/Wtml.tla models file names as character sequences and URL templates as token sequences: TLC checks, for every position to a depth bound (walk state space to depth 8, "
+         "both naming schemes, all formats) and seeded positions to depth 12, that expanding the recorded template gives exactly the tile's path, that the position can be read back "
+         "from the name (distinct positions give distinct names), and that FileType is the extension. TLC's expansions of the Url the real Builder records are compared with the real "
+         "PyramidIO.tile_path. The real workflows (tile-study, tile-allsky, cascade, tile_fits TAN/TOAST, pipeline process-todos) are run with every tile save observed, and TLC judges "
+         "each observed directory against the property's sentences. spec/WtmlHistory.tla is the tile_fits history machine (fresh / reuse / override on one directory); every history TLC "
+         "generates is replayed with real tile_fits calls and after each call the returned Builder's imgset/place must equal the parsed index_rel.wtml.",
+    note="Bounded: walk depth 5 (quick) / 8; histories of <= 3 (quick) / 4 calls over 2 / 4 small FITS inputs. Placeholder meaning {1}=level {2}=x {3}=y is fixed by the WWT client and "
+         "assumed. Workflows run serially so the save hook sees every write; HiPS output is not exercised (needs Java + network). TLC and the JSON bridge are trusted.",
+    technique="TLA+/TLC theorem checking + state-space walk; TLC-evaluated oracle tables; observations of the real workflows judged by TLC; replay of all TLC histories into the real tile_fits",
+    design_ref="DESIGN.md 4.10 (Wtml.tla), 5/C17, 9")
+
+reg("C09",
+    text="spec/Mosaic.tla (over spec/StudyTiling.tla) transcribes MultiTanProcessor: global size and per-input offsets from the CRPIX extrema, parity reconciliation, the four slices of "
+         "the tiling loop incl. the bottom-up flip, update_into_maskable_buffer, the ImageSet fields, update_image as Lock/Read/Write/Unlock and the lock clean-up. TLC checks, for every "
+         "input order x storage-parity assignment x both tile parities of all two-input decompositions of small mosaics and seeded 2-4-input ones with undefined borders/holes: placement "
+         "recovers the ground truth, tiles equal StudyTiling's single-image tiling of the pasted image after every prefix, order and parity independence, undefined never overwrites; and "
+         "over all interleavings of 2-3 workers: mutual exclusion, no lost contribution, equality with the serial result, no lock files left, termination. The harness draws real "
+         "decompositions, TLC evaluates the same operators at tile size 256 for exactly those file sets, and the real code (serial, deterministic scheduler, real processes, CLI; fits and "
+         "npy tiles) must reproduce TLC's tiles, the real single-image tiling of the pasted mosaic, TLC's integer ImageSet fields (1e-9) and leave no *.lock file.",
+    note="Float inputs with CD-matrix WCS only. Exhaustive only in the spec (mosaics up to 3x2 px quick / 4x3 thorough at tile size 2; seeded beyond); real code sampled over decompositions "
+         "and schedules. Queue hand-over (C03) and SoftFileLock exclusion (C10) are assumed. With filelock 4 the lock marker vanishes on release, so the clean-up sentence is exercised "
+         "through a stale lock file left at an untouched position. TLC and the JSON bridge are trusted.",
+    technique="TLA+/TLC exhaustive model checking of serial and parallel paste machines + TLC-evaluated expectations at the real tile size replayed into the real code",
+    design_ref="DESIGN.md 4.7, 4.8, 3 (M1, M4), 5/C09")
